@@ -9,6 +9,7 @@ REPAIR becomes empty by itself."""
 
 MSG = "aiocoap/message.py"
 UTIL = "aiocoap/util/__init__.py"
+A = "notes/adversary/"
 
 _DEFECT = """        self.remote = UndecidedRemote(parsed.scheme, parsed.netloc)
 
@@ -84,6 +85,54 @@ MUTATIONS = [
         "C16",
         "ipv4-detection-by-isdigit",
         REPAIR + [(MSG, 'and all(c in "0123456789." for c in parsed.hostname)', 'and parsed.hostname.replace(".", "").isdigit()')],
+    ),
+    # notes/adversary/C16_miss1..5: changes a white-box adversary got past the earlier check
+    ("C16", "adv-stale-path-query-on-reused-message", [("@patch", A + "C16_miss1.diff", 3)]),
+    ("C16", "adv-segments-nfc-normalised", [("@patch", A + "C16_miss2.diff", 3)]),
+    ("C16", "adv-authority-lower-cased-for-destination", [("@patch", A + "C16_miss3.diff", 3)]),
+    ("C16", "adv-ipv4-regex-without-255-limit", [("@patch", A + "C16_miss4_rebased.diff", 3)]),
+    ("C16", "adv-coap-schemes-in-uses_params", [("@patch", A + "C16_miss5.diff", 3)]),
+    # the two defects of the pinned tree the adversary's analysis uncovered (repaired in /repo), reverted
+    (
+        "C16",
+        "revert-96d6ddb-empty-label-valueerror",
+        [(MSG, 'and all(x != "" and int(x) <= 255 for x in parsed.hostname.split("."))', 'and all(int(x) <= 255 for x in parsed.hostname.split("."))')],
+    ),
+    (
+        "C16",
+        "revert-a93fc88-stale-uri-host",
+        [(MSG, "            self.opt.uri_host = None\n\n    # Deprecated accessors", "            pass\n\n    # Deprecated accessors")],
+    ),
+    # notes/adversary/C16_caught.md, "stopped only by a repository test"
+    (
+        "C16",
+        "adv-port-moved-into-uri-port",
+        [
+            (
+                MSG,
+                "        self.remote = UndecidedRemote(parsed.scheme, parsed.netloc)\n\n        is_ip_literal",
+                "        self.remote = UndecidedRemote(\n            parsed.scheme,\n"
+                "            parsed.netloc.rsplit(\":\", 1)[0] if parsed.port is not None else parsed.netloc,\n        )\n"
+                "        self.opt.uri_port = parsed.port\n\n        is_ip_literal",
+            )
+        ],
+    ),
+    (
+        "C16",
+        "adv-urlparse-valueerror-escapes",
+        [(MSG, "            parsed = urllib.parse.urlparse(uri)\n        except ValueError as e:\n", "            parsed = urllib.parse.urlparse(uri)\n        except KeyError as e:\n")],
+    ),
+    (
+        "C16",
+        "adv-port-5683-stripped-for-every-scheme",
+        [
+            (
+                MSG,
+                "        return urllib.parse.urlunparse((scheme, netloc, path, params, query, fragment))",
+                "        if netloc.endswith(\":5683\"):\n            netloc = netloc[:-5]\n"
+                "        return urllib.parse.urlunparse((scheme, netloc, path, params, query, fragment))",
+            )
+        ],
     ),
     ("C16", "path-quoting-keeps-slash", REPAIR + [(MSG, '_quote_for_path = quote_factory(unreserved + sub_delims + ":@")', '_quote_for_path = quote_factory(unreserved + sub_delims + ":@/")')]),
 ]
